@@ -755,7 +755,7 @@ func ruleRangeAlg(p *Prog, r *Result) {
 			continue
 		}
 		names := []string{"lstart", "lend", "rstart", "rend"}
-		var unsound, loose, errs []string
+		var unsound, loose, errs, open2 []string
 		n := 0
 		for mask := 0; mask < 16; mask++ {
 			nilMask := []bool{mask&1 != 0, mask&2 != 0, mask&4 != 0, mask&8 != 0}
@@ -807,6 +807,9 @@ func ruleRangeAlg(p *Prog, r *Result) {
 					errs = append(errs, desc+": "+it.err)
 					continue
 				}
+				if bothNilRange(res[0], sc) {
+					open2 = append(open2, desc)
+				}
 				kind, regs, ok := it.decodeScan(res[0], sc)
 				if !ok {
 					errs = append(errs, desc+": result "+kind+" is ill-formed")
@@ -844,6 +847,7 @@ func ruleRangeAlg(p *Prog, r *Result) {
 		r.note(fs.name+"_configurations", n)
 		sort.Strings(unsound)
 		sort.Strings(loose)
+		r.add(len(open2) == 0, fs.name+"|closed", p.Pos(fn.Pos()), fmt.Sprintf("the result is never a range open on both sides (such a range is not an operand of the algebra: everything is FULL); %d counter-configurations %v", len(open2), head(open2, 3)))
 		r.add(len(errs) == 0, fs.name+"|interpretable", p.Pos(fn.Pos()), fmt.Sprintf("%d configurations evaluated; %d outside the abstract domain %v", n, len(errs), head(errs, 2)))
 		r.add(len(unsound) == 0, fs.name+"|sound", p.Pos(fn.Pos()), fmt.Sprintf("result covers the %s of the operand ranges in all %d endpoint configurations; %d counter-configurations %v", map[string]string{"and": "intersection", "or": "union"}[fs.mode], n, len(unsound), head(unsound, 3)))
 		if fs.mode == "and" {
@@ -857,7 +861,7 @@ func ruleRangeAlg(p *Prog, r *Result) {
 			r.undecided("anchor: (*FilterOptimizer).%s not found", fs.name)
 			continue
 		}
-		var unsound, loose, errs []string
+		var unsound, loose, errs, open2 []string
 		n := 0
 		for nk := 1; nk <= 3; nk++ {
 			names := []string{"rstart", "rend", "k1", "k2", "k3"}[:2+nk]
@@ -903,6 +907,9 @@ func ruleRangeAlg(p *Prog, r *Result) {
 					if it.err != "" || len(res) != 1 {
 						errs = append(errs, desc+": "+it.err)
 						continue
+					}
+					if bothNilRange(res[0], sc) {
+						open2 = append(open2, desc)
 					}
 					kind, regs, ok := it.decodeScan(res[0], sc)
 					if !ok {
@@ -953,6 +960,7 @@ func ruleRangeAlg(p *Prog, r *Result) {
 		r.note(fs.name+"_configurations", n)
 		sort.Strings(unsound)
 		sort.Strings(loose)
+		r.add(len(open2) == 0, fs.name+"|closed", p.Pos(fn.Pos()), fmt.Sprintf("the result is never a range open on both sides (such a range is not an operand of the algebra: everything is FULL); %d counter-configurations %v", len(open2), head(open2, 3)))
 		r.add(len(errs) == 0, fs.name+"|interpretable", p.Pos(fn.Pos()), fmt.Sprintf("%d configurations evaluated; %d outside the abstract domain %v", n, len(errs), head(errs, 2)))
 		r.add(len(unsound) == 0, fs.name+"|sound", p.Pos(fn.Pos()), fmt.Sprintf("result covers the %s of key set and range in all %d configurations; %d counter-configurations %v", map[string]string{"and": "intersection", "or": "union"}[fs.mode], n, len(unsound), head(unsound, 3)))
 		if fs.mode == "and" {
@@ -1246,6 +1254,7 @@ func rulePrefixAlg(p *Prog, r *Result) {
 	type acc struct {
 		n                     int
 		unsound, loose, errs []string
+		open2                 []string
 		pos                   string
 		mode                  string
 	}
@@ -1358,6 +1367,9 @@ func rulePrefixAlg(p *Prog, r *Result) {
 						extra = fmt.Sprintf("key %q", pc.rep[n])
 					}
 				}
+				if bothNilRange(res[0], sc) {
+					a.open2 = append(a.open2, desc)
+				}
 				kind, _, _ := it.decodeScanKind(res[0], sc)
 				if illFormed {
 					a.errs = append(a.errs, desc+": result "+kind+" is ill-formed")
@@ -1378,6 +1390,7 @@ func rulePrefixAlg(p *Prog, r *Result) {
 		sort.Strings(a.unsound)
 		sort.Strings(a.loose)
 		r.note(nm+"_structures", a.n)
+		r.add(len(a.open2) == 0, nm+"|closed", a.pos, fmt.Sprintf("the result is never a range open on both sides; %d counter-structures %v", len(a.open2), head(a.open2, 3)))
 		r.add(len(a.errs) == 0, nm+"|interpretable", a.pos, fmt.Sprintf("%d operand structures evaluated; %d outside the abstract domain %v", a.n, len(a.errs), head(a.errs, 2)))
 		r.add(len(a.unsound) == 0, nm+"|sound", a.pos, fmt.Sprintf("result contains every key of the %s of the operands in all %d structures; %d counter-structures %v", map[string]string{"and": "intersection", "or": "union"}[a.mode], a.n, len(a.unsound), head(a.unsound, 3)))
 		if a.mode == "and" {
@@ -1463,7 +1476,7 @@ func ruleScanAlg(p *Prog, r *Result) {
 			r.undecided("anchor: (*FilterOptimizer).%s not found", comb.fn)
 			continue
 		}
-		var unsound, loose, errs []string
+		var unsound, loose, errs, open2 []string
 		n := 0
 		pairs := 0
 		for _, ls := range shapes {
@@ -1590,6 +1603,9 @@ func ruleScanAlg(p *Prog, r *Result) {
 									extra = fmt.Sprintf("key %q", pc.rep[nsym])
 								}
 							}
+							if bothNilRange(res[0], sc) {
+								open2 = append(open2, desc)
+							}
 							kind, _, _ := it.decodeScanKind(res[0], sc)
 							if ill {
 								errs = append(errs, desc+": result "+kind+" is ill-formed")
@@ -1611,6 +1627,7 @@ func ruleScanAlg(p *Prog, r *Result) {
 		sort.Strings(loose)
 		r.note(comb.fn+"_structures", n)
 		r.note(comb.fn+"_kind_pairs", pairs)
+		r.add(len(open2) == 0, comb.fn+"|closed", p.Pos(fn.Pos()), fmt.Sprintf("the combined scan is never a range open on both sides; %d counter-structures %v", len(open2), head(open2, 3)))
 		r.add(len(errs) == 0, comb.fn+"|interpretable", p.Pos(fn.Pos()), fmt.Sprintf("%d kind pairs, %d operand structures evaluated; %d outside the abstract domain %v", pairs, n, len(errs), head(errs, 2)))
 		r.add(len(unsound) == 0, comb.fn+"|sound", p.Pos(fn.Pos()), fmt.Sprintf("the combined scan contains every key of the %s of the operands in all %d structures; %d counter-structures %v", map[string]string{"and": "intersection", "or": "union"}[comb.mode], n, len(unsound), head(unsound, 3)))
 		if comb.mode == "and" {
